@@ -189,11 +189,19 @@ theorem dial_due_within_window (P : Params) (s : State) (h : Reachable P s) :
 /-- **The connection dialled for id n is dialled to n's listener**, whatever other dial runs concurrently with the
 same caller-supplied option slice and however their writes interleave. -/
 theorem dial_reaches_own_id (D : DialParams) (hD : D.Good) (id other : Nat) (b : Bool) : dialReaches D id other b = id := by
-  have : D.optsFresh = true := hD
+  have : D.optsFresh = true := hD.1
   simp [dialReaches, this]
+
+/-- **Unmatched dials do not queue behind one another**: however many other dials are waiting, a dial returns within one
+window of its own start (so a fresh pair issued meanwhile is not starved past its conn-info's expiry). -/
+theorem dial_not_serialised (D : DialParams) (hD : D.Good) (window k : Nat) : dialReturnsBy D window k = window := by
+  simp [dialReturnsBy, hD.2]
+
+/-- a broker-wide mutex held across the wait: the third of three unmatched dials returns after 15 s -/
+theorem serialised_dials_witness : dialReturnsBy ⟨true, false⟩ 5000 2 = 15000 := by decide
 
 /-- appending the per-id dialer onto the caller's slice: two concurrent dials with a shared slice, and the connection
 for id 101 is dialled to id 125's listener -/
-theorem shared_opts_witness : dialReaches ⟨false⟩ 101 125 true = 125 := by decide
+theorem shared_opts_witness : dialReaches ⟨false, true⟩ 101 125 true = 125 := by decide
 
 end GoPlugin.Props.C07
